@@ -525,6 +525,19 @@ func (e *Eval) call(n *Node) Val {
 		case "has":
 			m, k := e.eval(args[0]), e.eval(args[1])
 			return Val{T: x.mapHas(e.st, m, k), Sort: "Bool"}
+		case "sel":
+			a, i := e.eval(args[0]), e.eval(args[1])
+			srt := e.sortOf(a)
+			if !strings.HasPrefix(srt, "(Array ") {
+				e.fail("sel on non-array sort %s", srt)
+			}
+			return Val{T: fmt.Sprintf("(select %s %s)", a.T, i.T), Sort: arrayElemSort(srt)}
+		case "upd":
+			a, i, v := e.eval(args[0]), e.eval(args[1]), e.eval(args[2])
+			if v.Sort == "nil" {
+				v = Val{T: "0", Sort: "Int"}
+			}
+			return Val{T: fmt.Sprintf("(store %s %s %s)", a.T, i.T, v.T), Sort: e.sortOf(a)}
 		case "tag":
 			v := e.eval(args[0])
 			return Val{T: "(i_tag " + v.T + ")", Sort: "Int"}
@@ -743,3 +756,20 @@ func (x *Engine) frameTerm(st, old *State) string {
 }
 
 func sortStrings(s []string) { sort.Strings(s) }
+
+// arrayElemSort: "(Array Int X)" → X
+func arrayElemSort(s string) string {
+	s = strings.TrimPrefix(s, "(Array ")
+	// skip the index sort
+	d := 0
+	for i, c := range s {
+		if c == '(' {
+			d++
+		} else if c == ')' {
+			d--
+		} else if c == ' ' && d == 0 {
+			return strings.TrimSuffix(s[i+1:], ")")
+		}
+	}
+	return s
+}
